@@ -3,7 +3,8 @@ import common
 from common import Case
 
 TITLE = 'Every contract and result scores what the duplicate scoring table says'
-REQUIRED = ['calc_bid_score_is_law', 'calc_score_is_law', 'declarer_side_vulnerability_only',
+REQUIRED = ['translated_calc_bid_score_is_law', 'translated_calc_bid_score_rejects_non_bids', 'translated_contract_is_model',
+            'calc_bid_score_is_law', 'calc_score_is_law', 'declarer_side_vulnerability_only',
             'passed_out_scores_zero', 'is_vul_is_declarer_side']
 EXHAUSTIVE = True
 KEEP_FIRST = 0
@@ -21,6 +22,9 @@ DECLS = ['N', 'E', 'S', 'W', '-']
 # every op is a call of a function whose result must not depend on earlier calls: also evaluated in other orders
 PURE_OPS = True
 
+
+# areas of the pure core whose TRANSLATION (Generated/PyCore.lean) is run next to the real code in this check
+TRANSLATED_AREAS = ('score',)
 
 def cases(ctx):
     for b in range(35):
